@@ -13,7 +13,7 @@ import (
 
 func init() {
 	register(&Pack{ID: "C17", Run: runC17, Meta: core.Meta{
-		Level: "proof",
+		Level:       "proof",
 		Explanation: "The instances are total, loop-free functions that touch their arguments only through comparisons or one call, so the static decision is complete. ord.Compare: its cut-point paths form a decision tree over comparisons of the two parameters; the tree is evaluated for the three possible orderings a<b, a=b, a>b (trichotomy of int/string order) and must return LT, EQ, GT respectively, which must be pairwise distinct constants - totality, antisymmetry, transitivity and agreement with Eq follow. eq.Equal: term a==b. ContraMap: Base(f(a), f(b)) with the same projection and the argument order kept. From wrappers and semigroup.From: f(a,b). monoid.From/FromOp: the literal maps empty->empty, combine->Semigroup (FromOp through the conversion to semigroup.From whose Combine is f(a,b)); Empty returns the field; Combine is promoted from the embedded semigroup (method-set resolution).",
 		RuleText:    "one obligation per (instance method, rule)",
 		TrustedBase: []string{"go/types", "go/ssa construction", "Go spec for ==, <, > on int and string (total order, trichotomy)"},
